@@ -1280,3 +1280,31 @@ func SignedSend(w *World, from *User, nonce uint64, to types.Address, coin uint6
 	}
 	return raw
 }
+
+// SignedTx builds a single-signature transaction of any type directly (used by checks
+// that craft their own scenarios instead of drawing from the weighted generator).
+func SignedTx(w *World, from *User, nonce uint64, typ tx.TxType, data interface{}, gasCoin uint64) []byte {
+	enc, err := rlp.EncodeToBytes(data)
+	if err != nil {
+		panic(err)
+	}
+	t := tx.Transaction{Nonce: nonce, ChainID: w.ChainID, GasPrice: 1, GasCoin: types.CoinID(gasCoin), Type: typ, Data: enc, SignatureType: tx.SigTypeSingle}
+	if err := t.Sign(from.Key); err != nil {
+		panic(err)
+	}
+	raw, err := rlp.EncodeToBytes(t)
+	if err != nil {
+		panic(err)
+	}
+	return raw
+}
+
+// UserByAddr finds the key-ring user with the given address (nil if none).
+func (w *World) UserByAddr(a types.Address) *User {
+	for i := 0; i < w.NUsers; i++ {
+		if u := GetUser(i); u.Addr == a {
+			return u
+		}
+	}
+	return nil
+}
